@@ -354,6 +354,38 @@ def read_cases(tier):
             ("field-attr", "str(r.sl.%s) == 'x'" % m),
             ("field-attr", "lower(r.c.%s) == 'x'" % m),
             ("field-attr", "field_equals(r, ['s'], [r.sl.%s])" % m),
+            # a callable HANDED to a whitelisted helper (every helper, every argument position): the helper may refuse
+            # or ignore it, but must not call it
+            ("callable-as-argument", "fields(r.c.%s)" % m),
+            ("callable-as-argument", "fields(r.sl.%s)" % m),
+            ("callable-as-argument", "any(fields(r.cs.%s))" % m),
+            ("callable-as-argument", "name(r.c.%s) == 'x'" % m),
+            ("callable-as-argument", "names(r.c.%s) == ['x']" % m),
+            ("callable-as-argument", "get_type(r.c.%s) == 'x'" % m),
+            ("callable-as-argument", "has_field(r, r.c.%s)" % m),
+            ("callable-as-argument", "has_field(r.c.%s, 's')" % m),
+            ("callable-as-argument", "field_regex(r, ['s'], r.c.%s)" % m),
+            ("callable-as-argument", "field_regex(r, r.c.%s, 'a')" % m),
+            ("callable-as-argument", "field_contains(r, ['s'], r.c.%s)" % m),
+            ("callable-as-argument", "field_contains(r, r.sl.%s, ['a'])" % m),
+            ("callable-as-argument", "field_contains(r, ['s'], ['a'], word_boundary=r.c.%s)" % m),
+            ("callable-as-argument", "field_equals(r, r.c.%s, ['a'])" % m),
+            ("callable-as-argument", "field_equals(r, ['s'], ['a'], nocase=r.c.%s)" % m),
+            ("callable-as-argument", "upper(r.c.%s) == 'x'" % m),
+            ("callable-as-argument", "any([r.c.%s])" % m),
+            ("callable-as-argument", "all([r.c.%s, r.sl.%s])" % (m, m)),
+            ("callable-as-argument", "string(r.c.%s) == 'x'" % m),
+            ("callable-as-argument", "varint(r.c.%s) == 1" % m),
+            ("callable-as-argument", "stringlist(r.c.%s) == []" % m),
+            ("callable-as-argument", "net.ipaddress(r.c.%s) == '1.1.1.1'" % m),
+            ("callable-as-argument", "uri(r.sl.%s) == 'x'" % m),
+            ("callable-as-argument", "path(r.c.%s) == 'x'" % m),
+            ("callable-as-argument", "digest(r.c.%s) == 'x'" % m),
+            ("callable-as-argument", "datetime(r.c.%s) == 'x'" % m),
+            ("callable-as-argument", "bytes(r.c.%s) == 'x'" % m),
+            ("callable-as-argument", "boolean(r.c.%s) == 1" % m),
+            ("callable-as-argument", "Type.string == r.c.%s" % m),
+            ("callable-as-argument", "r.c.%s in Type.stringlist" % m),
         ]:
             for cname, ctpl in CONTEXTS:
                 if cname not in ("bare", "not", "boolop-right", "gen-condition", "call-arg-str"):
@@ -367,9 +399,32 @@ def benign_cases(tier):
             for b in BENIGN for c, t in CONTEXTS if c not in ("attr-of", "ctor-arg")]
 
 
+_WARM = [False]
+
+
+def warm_up():
+    """Once per process: every whitelisted helper and constructor is called LEGITIMATELY first, so that whatever the
+    library remembers about a name it has admitted (per process, per class) is in place before the hostile shapes."""
+    if _WARM[0]:
+        return
+    _WARM[0] = True
+    from flow.record.selector import Selector
+
+    rec = the_record()
+    srcs = list(BENIGN) + ["%s('1')" % w for w in ("string", "wstring", "uri", "path", "bytes", "varint", "float", "boolean",
+                                                   "stringlist", "digest", "datetime")]
+    srcs += ["net.ipaddress('1.1.1.1') == '1.1.1.1'", "net.ipnetwork('1.0.0.0/8') == 1", "lower('A') == upper('a')",
+             "any(lower(q) for q in r.sl)", "all(string(q) for q in r.sl)", "str(1) == repr(1)", "fields('string')"]
+    for src in srcs:
+        impl(lambda: Selector(src).match(rec))
+    del LOG[:]
+    del TRIPWIRE[:]
+
+
 def check_case(case, ctx):
     from flow.record.selector import Selector
 
+    warm_up()
     rec = the_record()
     before = observe(rec)
     del LOG[:]
